@@ -81,8 +81,23 @@ def run(case):
         thermal_mat, deformation_mat = library.load_thermal(mat, "base"), library.load_deformation(mat, case.get("deformation", "base"))
         fluid_mat = library.load_fluid("salt", "base")
         damage_mat = library.load_damage(mat, "base")
+        if case.get("force_cutback"):
+            # make the full-length attempt of the second stored step fail for every tube, in every process (the wrappers
+            # are installed before any worker is forked), so that the adaptive loop has to cut that step
+            tms = [fl(t) for t in case["receiver"]["times"]]
+            for name in ("solve_python_1d", "solve_python_2d", "solve_python_3d"):
+                def wrap(orig):
+                    def f(state_n, t_n, p_n, state_np1, t_np1, p_np1, top, opts):
+                        if abs(t_n - tms[1]) < 1e-12 and abs(t_np1 - tms[2]) < 1e-12:
+                            raise RuntimeError("scripted non-convergence of the full step")
+                        return orig(state_n, t_n, p_n, state_np1, t_np1, p_np1, top, opts)
+                    return f
+                setattr(structural, name, wrap(getattr(structural, name)))
+        struct_pset = solverparams.ParameterSet()
+        for k, v in (case.get("struct_params") or {}).items():
+            struct_pset[k] = v
         solver = managers.SolutionManager(rec, thermal.FiniteDifferenceImplicitThermalSolver(), thermal_mat, fluid_mat,
-                                          structural.PythonTubeSolver(solverparams.ParameterSet()), deformation_mat, damage_mat,
+                                          structural.PythonTubeSolver(struct_pset), deformation_mat, damage_mat,
                                           system.SpringSystemSolver(solverparams.ParameterSet()),
                                           damage.TimeFractionInteractionDamage(solverparams.ParameterSet()), pset=pset)
         sink = io.StringIO()
